@@ -14,6 +14,13 @@ ensures   E1  extract_flux(solution)[f]  = -(K a).n_f   for every face (n_f the 
           E3  the mass matrix data[...]['mass'] is symmetric (1e-13 relative) and positive definite (dense Cholesky succeeds).
           E1/E2 are linear in (a0, a): the affine basis {1, x, y, z} covers all linear pressures (all four are needed for embedded
           grids).  Expected values in dense numpy from geometry arrays; the linear system is solved with numpy.linalg.solve.
+          All comparisons are NaN-safe (a NaN flux / pressure / mass entry is a failure).
+
+Call history.  The statement quantifies over the grid, not over what the discretisation object did before, so E1-E3 must hold on
+every grid an RT0 / MVEM object is applied to.  First sweep: a fresh object per (grid, tensor) (re-used for the four basis fields).
+Second sweep ("shared object"): ONE object per method discretises a chain of grids of equal cell/face/node count but different
+connectivity (StructuredTriangleGrid [2,3] then [3,2], tetrahedra [2,1,1] / [1,2,1] / [1,1,2], ...), each with fresh data
+dictionaries -- the way porepy uses one object for all subdomains of a mixed-dimensional grid; E1-E3 are evaluated on every grid.
 
 Detection power (scratch copy, one mutant at a time, POREPY_SRC=<copy>): see MUTANTS below.
 """
@@ -24,9 +31,12 @@ META = {
     "engine": "sweep",
     "technique": "run-time contract sweep (bounded stand-in for deduction): postconditions of RT0 / MVEM discretize + assemble_matrix_rhs + solve "
                  "+ extract_flux/extract_pressure on enumerated simplex grids (1-D/2-D/3-D, perturbed, embedded) x SPD tensors, all-Dirichlet "
-                 "data of the affine basis (= all linear pressures by linearity); mass matrix symmetric positive definite",
+                 "data of the affine basis (= all linear pressures by linearity); mass matrix symmetric positive definite; evaluated with a "
+                 "fresh discretisation object per grid and with one object applied to chains of same-size grids of different connectivity",
     "text": "Bounded assurance only on the enumerated family. Deduction not applicable (local mass matrices + sparse saddle-point solve). "
-            "Not covered: unstructured (gmsh) simplex grids, Neumann/Robin data, heterogeneous K, vector sources, project_flux.",
+            "Covers object re-use: one RT0 / MVEM object discretising several 2-D / 3-D simplex grids of equal size in turn (fresh data "
+            "dictionaries) must be exact on each of them. Not covered: unstructured (gmsh) simplex grids, Neumann/Robin data, heterogeneous "
+            "K, vector sources, project_flux, re-use of one data dictionary for several grids, object re-use across 1-D grids.",
     "note": "oracle = -(K a).n_f and p(cell centre) from geometry arrays (C19); tolerance 1e-9 relative to kmax*area*|a| resp. max|p|",
 }
 
@@ -37,6 +47,9 @@ MUTANTS = """
   M4 mvem.py massHdiv: stabilisation weight ``w = weight * ||inv_K||`` -> ``0``                            caught by "MVEM: mass matrix symmetric positive definite"
        (2-D/3-D classes; in 1-D the stabilisation term vanishes identically -- equivalent there)
   M5 mvem.py massHdiv: consistency term ``Pi_s^T G Pi_s`` -> ``Pi_s^T (G^T/2) Pi_s``                       caught by "MVEM: exact face fluxes"
+  M6 rt0.py _compute_cell_face_to_opposite_node: the cell->opposite-node map memoised on the RT0 instance and re-used whenever its
+       shape (num_cells, dim+1) matches (cache key ignores connectivity)                                  caught by "RT0: exact face fluxes" /
+       "exact cell-centre pressures" in the shared-object sweep only (2-D and 3-D chains, from the second grid on; results are NaN)
 """
 
 import warnings
@@ -120,6 +133,52 @@ def grid_specs(pp, rng, quick):
     return out
 
 
+def shared_object_chains(pp, rng, quick):
+    """Sequences of simplex grids that ONE discretisation object discretises in turn (each grid with fresh data dictionaries),
+    as porepy does for mixed-dimensional problems where one object serves all subdomains.  Within a chain consecutive grids
+    have the same dimension and the same number of cells/faces/nodes but a different connectivity (n = [2,3] vs [3,2] ...),
+    or the same connectivity with different node coordinates, so that any per-object state keyed on less than the grid itself
+    is exposed.  Every grid of a chain is an ordinary member of the statement's grid quantifier."""
+    def spec(kind, n, phys, variant, R=None):
+        b = {"kind": kind, "n": n, "phys": phys}
+        g0 = build_grid(pp, b)
+        nodes = g0.nodes.copy()
+        if variant.startswith("perturbed"):
+            h = min(p / k for p, k in zip(phys, n))
+            for _ in range(20):
+                cand = g0.nodes.copy()
+                for i in range(g0.dim):
+                    cand[i] += np.array([rng.uniform(-0.15, 0.15) * h for _ in range(g0.num_nodes)])
+                if cells_valid(build_grid(pp, dict(b, nodes=cand.tolist()))) and _oriented_like(pp, b, cand, g0):
+                    nodes = cand
+                    break
+            else:
+                variant = "regular"
+        if R is not None:
+            nodes = R @ nodes
+            variant += "+embedded"
+        return dict(b, nodes=np.round(nodes, 12).tolist(), variant=variant, R=None if R is None else np.round(R, 15).tolist())
+
+    R1 = _rot([1, 1, -1], -np.pi / 4)
+    chains = [
+        [spec("tri", [2, 3], [1.0, 1.0], "perturbed"), spec("tri", [3, 2], [1.0, 1.0], "perturbed"),
+         spec("tri", [3, 2], [1.0, 1.0], "regular", R1), spec("tri", [2, 3], [2.0, 1.0], "regular")],
+        [spec("tri", [1, 2], [1.0, 1.0], "regular"), spec("tri", [2, 1], [1.0, 1.0], "regular")],
+        [spec("tet", [2, 1, 1], [2.0, 1.0, 1.5], "regular"), spec("tet", [1, 2, 1], [1.0, 1.0, 1.0], "perturbed"),
+         spec("tet", [1, 1, 2], [1.0, 1.0, 1.0], "regular")],
+    ]
+    if not quick:
+        chains += [
+            [spec("tri", [1, 4], [1.0, 2.0], "regular"), spec("tri", [2, 2], [1.0, 1.0], "perturbed"),
+             spec("tri", [4, 1], [2.0, 1.0], "regular"), spec("tri", [2, 2], [1.0, 1.0], "regular", _rot([0.2, -1, 0.5], 1.1))],
+            [spec("tet", [1, 1, 2], [1.0, 1.0, 1.0], "perturbed"), spec("tet", [2, 1, 1], [1.0, 1.0, 1.0], "perturbed"),
+             spec("tet", [1, 2, 1], [0.5, 3.0, 1.0], "regular")],
+            [spec("tri", [4, 3], [1.0, 1.0], "perturbed"), spec("tri", [3, 4], [1.0, 1.0], "perturbed"),
+             spec("tri", [2, 6], [1.0, 1.0], "regular"), spec("tri", [6, 2], [1.0, 1.0], "regular")],
+        ]
+    return chains
+
+
 def _oriented_like(pp, b, nodes, g0):
     """perturbed cells keep positive orientation: every face stays on the same side of its cell centre"""
     g = build_grid(pp, dict(b, nodes=nodes.tolist()))
@@ -147,7 +206,14 @@ def make_tensor(pp, K3, nc):
 # ----------------------------------------------------------------------------- contract
 
 
-def evaluate(pp, method, spec, K):
+def new_discretization(pp, method):
+    return {"RT0": pp.RT0, "MVEM": pp.MVEM}[method](KW)
+
+
+def evaluate(pp, method, spec, K, discr=None):
+    """Evaluate E1-E3 for one (grid, tensor).  ``discr`` = the discretisation object to use; None = a freshly constructed one.
+    Passing an object that has already discretised other grids is how the 'shared object' sweep exercises the statement for
+    every grid an object is applied to (the statement quantifies over the grid, not over the object's call history)."""
     g = build_grid(pp, spec)
     nf, nc = g.num_faces, g.num_cells
     K = np.asarray(K, dtype=float)
@@ -156,7 +222,8 @@ def evaluate(pp, method, spec, K):
     K3 = 0.5 * (K3 + K3.T)
     bf = g.get_all_boundary_faces()
     bc = pp.BoundaryCondition(g, bf, ["dir"] * bf.size)
-    discr = {"RT0": pp.RT0, "MVEM": pp.MVEM}[method](KW)
+    if discr is None:
+        discr = new_discretization(pp, method)
     xc, xf, nrm = g.cell_centers, g.face_centers, g.face_normals
     L = max(1.0, np.abs(g.nodes).max())
     kmax = np.abs(K).max()
@@ -181,7 +248,7 @@ def evaluate(pp, method, spec, K):
             mass_checked = True
             Mm = data[pp.DISCRETIZATION_MATRICES][KW][discr.mass_matrix_key].toarray()
             asym = np.abs(Mm - Mm.T).max()
-            if Mm.shape != (nf, nf) or asym > 1e-13 * np.abs(Mm).max():
+            if Mm.shape != (nf, nf) or not asym <= 1e-13 * np.abs(Mm).max():  # 'not <=' so that NaN counts as a failure
                 bad.append((_ob(method, C_SPD), f"shape {Mm.shape}, max |M - M^T| = {asym:.3e} (max |M| {np.abs(Mm).max():.3e})"))
             else:
                 try:
@@ -192,11 +259,11 @@ def evaluate(pp, method, spec, K):
         pmax = 1.0 if a0 else L
         tol = 1e-9 * max(kmax * g.face_areas.max(), 1e-300) * max(1.0, L)
         err = np.abs(q - darcy)
-        if q.shape != (nf,) or err.max() > tol:
+        if q.shape != (nf,) or not err.max() <= tol:  # NaN-safe
             f = int(err.argmax())
             bad.append((_ob(method, C_FLUX), f"a0={a0} grad={a.tolist()}: face {f} flux {q[f]!r} expected {darcy[f]!r} (tol {tol:.1e})"))
         perr = np.abs(pc - p(xc))
-        if pc.shape != (nc,) or perr.max() > 1e-9 * pmax:
+        if pc.shape != (nc,) or not perr.max() <= 1e-9 * pmax:  # NaN-safe
             c = int(perr.argmax())
             bad.append((_ob(method, C_PRES), f"a0={a0} grad={a.tolist()}: cell {c} pressure {pc[c]!r} expected {p(xc)[c]!r}"))
     return bad
@@ -217,7 +284,9 @@ def run(rep):
                        "DualElliptic.extract_pressure")
     rep.trust("grid geometry arrays (face_normals, face_centers, cell_centers) -- property C19", "numpy.linalg.solve / cholesky")
     rep.assume("flux unknowns are normal fluxes integrated over the face, positive along the face normal; for embedded grids the tensor "
-               "is given in the ambient coordinates (R K R^T), as in porepy's own tests")
+               "is given in the ambient coordinates (R K R^T), as in porepy's own tests",
+               "discretize(sd, data) with a fresh data dictionary must not depend on which grids the same object discretised before "
+               "(the statement is for any grid; one object serves all subdomains in porepy's mixed-dimensional assembly)")
     quick = rep.tier == "quick"
     rng = rep.rng
     with rep.sweep(
@@ -244,12 +313,46 @@ def run(rep):
                         rep.violation(ob, f"{_dim(spec)}d {spec['variant']} K={tname}", detail=detail, confirmed=True,
                                       inputs={"method": method, "grid": spec, "K": np.asarray(K).tolist()})
 
+    with rep.sweep(
+        "RT0 / MVEM linear exactness, one discretisation object applied to several grids in turn",
+        rule="methods {RT0, MVEM} x chains of 2-D / 3-D simplex grids of equal cell, face and node count but different connectivity "
+             "(structured [a,b] vs [b,a] ...; regular / perturbed / embedded) x K {isotropic, full}; ONE object per (method, chain, K) "
+             "discretises the grids in chain order, each with fresh data dictionaries, and E1-E3 are evaluated on every grid exactly as "
+             "in the first sweep; distinct by (method, chain, position, tensor); non-trivial = the object has discretised another grid "
+             "before (position >= 1)",
+        bound=("3" if quick else "6") + " chains of 2-4 grids, <= 24 triangles / 12 tetrahedra per grid",
+        exhaustive=False,
+    ) as sw:
+        for ci, chain in enumerate(shared_object_chains(pp, rng, quick)):
+            dim = _dim(chain[0])
+            tensors = [t for t in tensor_family(dim) if t[0] in ("iso", "full")]
+            for tname, K in tensors:
+                for method in ("RT0", "MVEM"):
+                    discr = new_discretization(pp, method)
+                    history = []
+                    for pos, spec in enumerate(chain):
+                        if not cells_valid(build_grid(pp, spec)):
+                            sw.skip()
+                            continue
+                        sw.case((method, "shared", ci, pos, _gname(spec), spec["variant"], tname), nontrivial=pos > 0,
+                                sample={"method": method, "chain": [_gname(s) + " " + s["variant"] for s in chain], "position": pos, "K": tname})
+                        for ob, detail in evaluate(pp, method, spec, K, discr=discr):
+                            rep.violation(ob, f"{dim}d K={tname} shared object, {'first grid' if not history else 'after a same-size grid'}",
+                                          detail=f"grid #{pos} of chain {[_gname(s) for s in chain]}: " + detail, confirmed=True,
+                                          inputs={"method": method, "grid": spec, "K": np.asarray(K).tolist(), "history": list(history)})
+                        history.append(spec)
+
 
 def replay(data):
     import porepy as pp
 
     inp = data["inputs"]
-    bad = evaluate(pp, inp["method"], inp["grid"], inp["K"])
+    discr = None
+    if inp.get("history"):  # the same object first discretises the earlier grids of the chain
+        discr = new_discretization(pp, inp["method"])
+        for h in inp["history"]:
+            evaluate(pp, inp["method"], h, inp["K"], discr=discr)
+    bad = evaluate(pp, inp["method"], inp["grid"], inp["K"], discr=discr)
     for b in bad:
         print("replay:", b)
     return bool(bad)
